@@ -219,6 +219,11 @@ def r12_4(ctx, rc):
                                  key=key)
 
 
+def r12_4b(ctx, rc):
+    from .c16 import r16_2
+    r16_2(ctx, rc)
+
+
 def r12_5(ctx, rc):
     R = ctx.R
     prog = ctx.prog
@@ -329,6 +334,8 @@ RULES = [
     ('R12.3', 'the cache file and recorded outputs are always removed',
      r12_3),
     ('R12.4', 'the created-directory set is persisted', r12_4),
+    ('R12.4b', 'createdDirs is written from and read back into one field',
+     r12_4b),
     ('R12.5', 'clean/commit/rollback agree on the removal discipline', r12_5),
     ('R12.6', 'directory bookkeeping is seeded and re-registered', r12_6),
 ]
